@@ -16,15 +16,15 @@ theorem stepParse_independent_of_state (σ : Int → Rng) (w : World) (t : ToolP
     (o : SeedOpt) (ho : t.seedOpt = some o) (hseeds : o.seeds = true) (s : Int) (hs : seedOf argv = some s)
     (r₁ r₂ : Rng) : stepParse σ w t argv { rng := r₁ } = stepParse σ w t argv { rng := r₂ } := by
   unfold stepParse
+  unfold seedOf at hs
   split
   · rfl
-  · unfold seedOf at hs
-    cases hp : parseTop (argv.length + 1) argv.tail {} with
-    | error e => rfl
-    | ok top =>
-      rw [hp] at hs
-      simp only at hs
-      simp only [ho, hs, hseeds, if_true]
+  cases hp : parseTop (argv.length + 1) (parseCommandLine argv).1 {} with
+  | error e => rfl
+  | ok top =>
+    rw [hp] at hs
+    simp only at hs
+    simp only [ho, hs, hseeds, if_true]
 
 /-- T-C07.3 (general) for every table whose `--seed` action seeds while parsing: with a seed on the command line the
 WHOLE outcome of the run — the text written, or the kind of failure, and the number of answers consumed from the
@@ -84,40 +84,34 @@ theorem stepParse_sigma (σ₁ σ₂ : Int → Rng) (w : World) (t : ToolPhases)
     (hs : seedOf argv = some s) (hσ : σ₁ s = σ₂ s) (st : RState) :
     stepParse σ₁ w t argv st = stepParse σ₂ w t argv st := by
   unfold stepParse
+  unfold seedOf at hs
   split
   · rfl
-  · unfold seedOf at hs
-    cases hp : parseTop (argv.length + 1) argv.tail {} with
-    | error e => rfl
-    | ok top =>
-      rw [hp] at hs
-      simp only at hs
-      simp only [hs]
-      cases t.seedOpt with
-      | none => rfl
-      | some o => simp only [hσ]
+  cases hp : parseTop (argv.length + 1) (parseCommandLine argv).1 {} with
+  | error e => rfl
+  | ok top =>
+    rw [hp] at hs
+    simp only at hs
+    simp only [hs]
+    cases t.seedOpt with
+    | none => rfl
+    | some o => simp only [hσ]
 
 theorem stepParse_inv (σ : Int → Rng) (w : World) (t : ToolPhases) (argv : List String) (st st' : RState)
     (h : stepParse σ w t argv st = .ok st') : SeedInv argv st' := by
   unfold stepParse at h
   split at h
   · cases h
-  · cases hp : parseTop (argv.length + 1) argv.tail {} with
-    | error e => simp [hp] at h
-    | ok top =>
-      have hseed : seedOf argv = top.seed := by simp [seedOf, hp]
-      simp only [hp] at h
-      right
-      rw [hseed]
-      split at h
-      · cases h
-      · split at h
-        · cases h
-        · split at h
-          · cases h; rfl
-          · split at h
-            · cases h
-            · cases h; rfl
+  cases hp : parseTop (argv.length + 1) (parseCommandLine argv).1 {} with
+  | error e => simp [hp] at h
+  | ok top =>
+    have hseed : seedOf argv = top.seed := by simp [seedOf, hp]
+    simp only [hp] at h
+    right
+    rw [hseed]
+    split at h
+    · cases h
+    · cases h; rfl
 
 theorem stepEv_sigma (σ₁ σ₂ : Int → Rng) (w : World) (t : ToolPhases) (argv : List String) (s : Int)
     (hs : seedOf argv = some s) (hσ : σ₁ s = σ₂ s) (st : RState) (hinv : SeedInv argv st) (e : Ev) :
@@ -154,31 +148,22 @@ theorem stepEv_inv (σ : Int → Rng) (w : World) (t : ToolPhases) (argv : List 
       · cases h
     · cases h; exact keep rfl
   | build c =>
-    simp only [CliRun.stepEv, stepBuild] at h
+    simp only [CliRun.stepEv] at h
     apply keep
     split at h
     · cases h
     · split at h
-      · split at h
-        · split at h
-          · cases h
-          · cases h; rfl
-        · cases h
-      · split at h
-        · split at h
-          · split at h
-            · cases h
-            · cases h; rfl
-          · cases h
-        · split at h
-          · split at h
-            · split at h
-              · cases h
-              · cases h
-              · cases h; rfl
-            · cases h
-          · cases h
-  | transforms c => simp only [CliRun.stepEv] at h; cases h; exact keep rfl
+      · cases h
+      · cases h; rfl
+  | transforms c =>
+    simp only [CliRun.stepEv] at h
+    apply keep
+    split at h
+    · cases h; rfl
+    · cases h
+    · split at h
+      · cases h
+      · cases h; rfl
   | headerSeed gd v =>
     simp only [CliRun.stepEv] at h
     split at h
@@ -241,41 +226,42 @@ def witnessWorld : World :=
 hypothesis of T-C07.3 -/
 theorem cliRun_unseeded_depends_on_state :
     (cliRun (fun _ => ⟨[], []⟩) witnessWorld ["cnfgen", "randkcnf", "1", "2", "1"]
-      ⟨[], [.sample 2 1 [0], .choice 2 0]⟩).1 ≠
+      ⟨[], [.f (.sample 2 1 [0]), .f (.choice 2 0)]⟩).out ≠
     (cliRun (fun _ => ⟨[], []⟩) witnessWorld ["cnfgen", "randkcnf", "1", "2", "1"]
-      ⟨[], [.sample 2 1 [1], .choice 2 0]⟩).1 := by decide +kernel
+      ⟨[], [.f (.sample 2 1 [1]), .f (.choice 2 0)]⟩).out := by decide +kernel
 
 /-- the answers of the seeded state do reach the text (the run is not constant in `σ`) -/
 theorem cliRun_seeded_state_matters :
-    (cliRun (fun _ => ⟨[], [.sample 2 1 [0], .choice 2 0]⟩) witnessWorld ["cnfgen", "--seed", "7", "randkcnf", "1", "2", "1"] ⟨[], []⟩).1 ≠
-    (cliRun (fun _ => ⟨[], [.sample 2 1 [1], .choice 2 0]⟩) witnessWorld ["cnfgen", "--seed", "7", "randkcnf", "1", "2", "1"] ⟨[], []⟩).1 := by
+    (cliRun (fun _ => ⟨[], [.f (.sample 2 1 [0]), .f (.choice 2 0)]⟩) witnessWorld ["cnfgen", "--seed", "7", "randkcnf", "1", "2", "1"] ⟨[], []⟩).out ≠
+    (cliRun (fun _ => ⟨[], [.f (.sample 2 1 [1]), .f (.choice 2 0)]⟩) witnessWorld ["cnfgen", "--seed", "7", "randkcnf", "1", "2", "1"] ⟨[], []⟩).out := by
   decide +kernel
 
 /-- recorded run of the real tool (`cnfgen --seed 0 randkcnf 2 3 2`, CPython 3.12 generator): the model, given the
 answers the generator gave after `random.seed(0)`, asks for exactly those six draws and writes the same text -/
 example :
-    cliRun (fun _ => ⟨[], [.sample 3 2 [1, 2], .choice 2 0, .choice 2 1, .sample 3 2 [2, 1], .choice 2 1, .choice 2 1]⟩)
-      witnessWorld ["cnfgen", "--seed", "0", "randkcnf", "2", "3", "2"] ⟨[.unit 5], [.choice 9 9]⟩ =
-    (.text ("c description: Random 2-CNF over 3 variables and 2 clauses\nc generator: CNFgen (3e30473)\n" ++
-            "c random seed: 0\nc command line: cnfgen --seed 0 randkcnf 2 3 2\nc\np cnf 3 2\n2 -3 0\n-2 -3 0\n"), 0, 6) := by
+    cliRun (fun _ => ⟨[], [.f (.sample 3 2 [1, 2]), .f (.choice 2 0), .f (.choice 2 1), .f (.sample 3 2 [2, 1]),
+                          .f (.choice 2 1), .f (.choice 2 1)]⟩)
+      witnessWorld ["cnfgen", "--seed", "0", "randkcnf", "2", "3", "2"] ⟨[.g (.unit 5)], [.f (.choice 9 9)]⟩ =
+    ⟨.text ("c description: Random 2-CNF over 3 variables and 2 clauses\nc generator: CNFgen (3e30473)\n" ++
+            "c random seed: 0\nc command line: cnfgen --seed 0 randkcnf 2 3 2\nc\np cnf 3 2\n2 -3 0\n-2 -3 0\n"), 0, 6, []⟩ := by
   decide +kernel
 
 /-- recorded run of `cnfgen -q --seed 7 kcolor 2 gnp 3 .5`: three `random()` calls of networkx while the command
 line is parsed (the graph argument), none afterwards; non-vacuity of T-C07.3 with a random graph argument -/
 example :
-    cliRun (fun _ => ⟨[.unit 2916826238065975, .unit 1358728566951068, .unit 5863096500449791], []⟩)
+    cliRun (fun _ => ⟨[.g (.unit 2916826238065975), .g (.unit 1358728566951068), .g (.unit 5863096500449791)], []⟩)
       witnessWorld ["cnfgen", "-q", "--seed", "7", "kcolor", "2", "gnp", "3", ".5"] ⟨[], []⟩ =
-    (.text "p cnf 6 10\n1 2 0\n3 4 0\n5 6 0\n-1 -2 0\n-3 -4 0\n-5 -6 0\n-1 -3 0\n-2 -4 0\n-1 -5 0\n-2 -6 0\n", 3, 0) ∧
+    ⟨.text "p cnf 6 10\n1 2 0\n3 4 0\n5 6 0\n-1 -2 0\n-3 -4 0\n-5 -6 0\n-1 -3 0\n-2 -4 0\n-1 -5 0\n-2 -6 0\n", 3, 0, []⟩ ∧
     seedOf ["cnfgen", "-q", "--seed", "7", "kcolor", "2", "gnp", "3", ".5"] = some 7 := by
   decide +kernel
 
 /-- recorded run of `pbgen -q --seed 3 kcolor 2 gnp 3 .5` (OPB rendering of the same family, same flow) -/
 example :
-    toolRun "pbgen" (fun _ => ⟨[.unit 2143394811796802, .unit 4901981072493965, .unit 3332259900419439], []⟩)
-      witnessWorld ["pbgen", "-q", "--seed", "3", "kcolor", "2", "gnp", "3", ".5"] ⟨[.unit 1], []⟩ =
-    (.text ("* #variable= 6 #constraint= 10\n+1 x1 +1 x2 >= 1\n+1 x3 +1 x4 >= 1\n+1 x5 +1 x6 >= 1\n+1 ~x1 +1 ~x2 >= 1\n" ++
+    toolRun "pbgen" (fun _ => ⟨[.g (.unit 2143394811796802), .g (.unit 4901981072493965), .g (.unit 3332259900419439)], []⟩)
+      witnessWorld ["pbgen", "-q", "--seed", "3", "kcolor", "2", "gnp", "3", ".5"] ⟨[.g (.unit 1)], []⟩ =
+    ⟨.text ("* #variable= 6 #constraint= 10\n+1 x1 +1 x2 >= 1\n+1 x3 +1 x4 >= 1\n+1 x5 +1 x6 >= 1\n+1 ~x1 +1 ~x2 >= 1\n" ++
             "+1 ~x3 +1 ~x4 >= 1\n+1 ~x5 +1 ~x6 >= 1\n+1 ~x1 +1 ~x3 >= 1\n+1 ~x2 +1 ~x4 >= 1\n+1 ~x3 +1 ~x5 >= 1\n+1 ~x4 +1 ~x6 >= 1\n"),
-     3, 0) := by
+     3, 0, []⟩ := by
   decide +kernel
 
 end Cnfgen.C07
